@@ -616,6 +616,14 @@ Proof.
   destruct c; reflexivity.
 Qed.
 
+(* a block of more than 128 proof nodes (more than 4129 bytes) is refused; the verification
+   theorems themselves (proof_root, verify_commitment) hold for proofs of ANY length *)
+Lemma parse_cb_rejects_long liftable bs : cb_max_size < length bs -> parse_cb liftable bs = None.
+Proof.
+  intro H. unfold parse_cb. destruct (length bs <? cb_base_size); [reflexivity|].
+  apply Nat.ltb_lt in H. rewrite H. reflexivity.
+Qed.
+
 Lemma to_cb_root LH BHR e keyx odd :
   cb_root LH BHR (to_cb e keyx odd) (tlf_script (pe_leaf e)) = proof_root BHR (pe_proof e) (LH (pe_leaf e)).
 Proof. unfold cb_root, to_cb. cbn. destruct (pe_leaf e); reflexivity. Qed.
